@@ -46,7 +46,8 @@ ASSUMPTIONS = [
     'a completed sequence is defined by the regular expression SEQ in this file, written from the VT100 grammar '
     'the emulator documents; a sequence following a truncated one is legitimately consumed as its continuation',
     'numeric parameters up to 12 digits (CPython refuses int() of > 4300 digits); sequences up to 40 tokens',
-    'bytes input is a valid encoding of the text; cuts may fall anywhere',
+    'bytes input is a valid encoding of the text and cuts may fall anywhere; a third of the utf-8 cases instead carry '
+    'invalid pieces (truncated / stray bytes of multi-byte characters), for which totality, shape and chunking are decided',
     'DoLog appends to ./log: every worker runs in a private temporary working directory',
 ]
 BUDGET = {'quick': 200, 'thorough': 1700}
@@ -130,7 +131,14 @@ def cases(draw):
         toks = [t.encode(enc, 'replace').decode(enc) for t in toks]
     total = len(''.join(toks).encode(enc)) if enc else len(''.join(toks))
     cuts = sorted(draw(st.lists(st.integers(0, total), min_size=0, max_size=4)))
-    return {'rows': rows, 'cols': cols, 'enc': enc, 'tokens': toks, 'cuts': cuts}
+    case = {'rows': rows, 'cols': cols, 'enc': enc, 'tokens': toks, 'cuts': cuts}
+    if enc == 'utf-8' and draw(st.integers(0, 2)) == 0:
+        # bytes that are not a valid encoding: truncated and stray pieces of multi-byte characters after some
+        # tokens (a terminal is fed whatever the program prints); only totality, shape and chunking are decided
+        case['junk'] = [[draw(st.integers(0, len(toks) - 1)),
+                         draw(st.sampled_from([b'\xe2\x8c', b'\xc3', b'\xf0\x9f', b'\xf0\x9f\x98', b'\xff', b'\x80', b'\xa8']))]
+                        for _ in range(draw(st.integers(1, 3)))]
+    return case
 
 
 def snapshot(t):
@@ -159,7 +167,46 @@ def new_term(rows, cols, enc):
     return ansi_mod.ANSI(rows, cols)
 
 
+def check_junk(case, col=None):
+    """utf-8 bytes input with invalid pieces: never raises, keeps its shape, and the result does not depend on
+    how the bytes were cut (cuts right after each invalid piece and one byte later, plus the generated ones)."""
+    rows, cols = case['rows'], case['cols']
+    after = {}
+    for k, j in case['junk']:
+        after.setdefault(k, []).append(j)
+    data = b''
+    marks = set()
+    for i, tok in enumerate(case['tokens']):
+        data += tok.encode('utf-8')
+        for j in after.get(i, []):
+            data += j
+            marks.add(len(data))
+            marks.add(len(data) + 1)
+            marks.add(len(data) + 2)
+    t2 = new_term(rows, cols, 'utf-8')
+    with guard('ANSI.write(whole input, invalid utf-8)'):
+        t2.write(data)
+    check_shape(t2, rows, cols, data[-20:])
+    whole = snapshot(t2)
+    cuts = sorted(set(c for c in list(case['cuts']) + list(marks) if 0 < c < len(data)))
+    pts = [0] + cuts + [len(data)]
+    t3 = new_term(rows, cols, 'utf-8')
+    with guard('ANSI.write(pieces, invalid utf-8)'):
+        for i in range(len(pts) - 1):
+            t3.write(data[pts[i]:pts[i + 1]])
+    check_shape(t3, rows, cols, data[-20:])
+    s3 = snapshot(t3)
+    if s3 != whole:
+        raise Violation('chunking', 'invalid utf-8 input %r fed in pieces cut at %r: %r; fed at once: %r' % (data[:80], cuts, s3, whole))
+    if col is not None:
+        col.label('input=utf-8-with-invalid-bytes')
+        col.case(case, True)
+    return True
+
+
 def check_case(case, col=None):
+    if case.get('junk'):
+        return check_junk(case, col)
     rows, cols, enc = case['rows'], case['cols'], case['enc']
     text = ''.join(case['tokens'])
     data = text.encode(enc) if enc else text
